@@ -4,8 +4,8 @@
 usage: gen.py SEED NCASES [kinds]      (kinds: any of t b z, default "tbz")
 
 Only generates lines both sides support (see PROTOCOL.md and the harness' design notes):
-  * kind b: no faults, no `*_mut` operations (the model does not wrap bytes), eq/cmp only with M == N
-  * kind z: capacity-proportional operations only for small N; no `*_mut`, no extend_from_slice and
+  * kind b: no faults, eq/cmp only with M == N, no to_vec / boxed (model reports 0 allocations)
+  * kind z: capacity-proportional operations only for small N; no extend_from_slice and
     only zero values for the "other" buffers / slices (the model attaches values to them)
   * at most one fault per line (two could abort the process through a double panic)
 """
@@ -121,8 +121,6 @@ def gen_op(rnd, n, kind, small, huge):
     op = rnd.choice(ops)
     if op == "rot":
         return None
-    if kind in "bz" and (op.endswith("_mut") or op == "as_mut_slices"):
-        return None   # the model adds 1000 to a Nat: bytes do not wrap, zero-sized elements get a value
     if kind == "b" and op in ("to_vec", "boxed"):
         return None   # DISCREPANCIES.md #2: the model reports no allocations for kind b
     if kind == "z" and op == "extend_from_slice":
